@@ -18,10 +18,6 @@ import dali.driver.hid as H
 import dali.driver.serial as S
 from dali.exceptions import CommunicationError
 
-# the deeper thorough case list (kept in cases()) could not be re-validated end to end after the final harness
-# changes within the session: see symx/runner.py
-THOROUGH_CASES = "quick"
-
 META = {
     "level_text": "Bounded symbolic exploration of schedules on the real coroutines: 2 (thorough 3) concurrent "
                   "callers - single sends and run_sequence with up to 3 items, with and without device types, "
